@@ -527,8 +527,11 @@ func genDeb(t *rt.Tape, r *rt.Run, pair int, codecs []string) *debPkg {
 		p.Data = genDataPayload(t, "deb.data")
 		dataBytes = compressMaybeMulti(t, r, p.DataCodec, buildTar(p.Data.Files), "deb.datamulti")
 	}
+	// numeric header columns blank-padded (dpkg-deb) or zero-padded (other ar
+	// writers): both are decimal
+	zeroPad := t.Bool(1, 6, "deb.zeropad")
 	mk := func(name string, data []byte) *arMember {
-		return &arMember{Name: name, RawName: name, Timestamp: 1_600_000_000, Mode: "100644", Data: data}
+		return &arMember{Name: name, RawName: name, Timestamp: 1_600_000_000, Mode: "100644", Data: data, ZeroPad: zeroPad, UID: 1000, GID: 1000}
 	}
 	p.BinMember = mk("debian-binary", []byte(p.BinVer))
 	p.CtlMember = mk("control.tar"+codecExt(p.CtlCodec), ctlBytes)
